@@ -125,7 +125,7 @@ package props
 //@ func props.checkFloatInfixArgs(args, propName, nilAs) self, other, err
 //@   requires argsOK(args)
 //@   requires nilAs != nil
-//@   ensures  err == nil ==> self != nil && other != nil
+//@   ensures  err == nil ==> self != nil && other != nil && len(args) >= 2
 //@   assigns  nothing
 //
 // ---- C06: helpers that fill locally created tables (recursive, so the frame is stated) -----------
@@ -137,3 +137,9 @@ package props
 //@   loop 1 invariant fresh(pairs) && pairs != nil
 //@ func props.parseJSONArr(elems) res
 //@   assigns nothing
+//
+// ---- C01: the container of evaluator/di built-ins handed to every props constructor ---------------
+// Start-up dependency injection (di.InjectBuiltInProps) merges evaluator.NewPropContainer() and
+// di.NewPropContainer() and passes the result as `propContainer`; every entry is a built-in function.
+//@ spec macro pcEntry(m map[string]object.PanObject, k string) bool = has(m, k) && isT(m[k], *object.PanBuiltIn) && as(m[k], *object.PanBuiltIn).Fn != nil
+//@ paraminv propContainer: pcEntry(propContainer, "Arr_at") && pcEntry(propContainer, "BaseObj_at") && pcEntry(propContainer, "Func_call") && pcEntry(propContainer, "Int_at") && pcEntry(propContainer, "Iter_new") && pcEntry(propContainer, "Iter_next") && pcEntry(propContainer, "Map_at") && pcEntry(propContainer, "Obj_callProp") && pcEntry(propContainer, "Str_at") && pcEntry(propContainer, "Str_eval") && pcEntry(propContainer, "Str_evalEnv") && pcEntry(propContainer, "Kernel_import") && pcEntry(propContainer, "Kernel_invite!")
